@@ -673,7 +673,13 @@ def run_front(inp):  # noqa: C901, PLR0912, PLR0915
     # serial mode hands available_cpus() to numba.set_num_threads, which refuses more than NUMBA_NUM_THREADS (=1 here)
     cpus_seen = fe.cpus if parallel else 1
     patches = [sched.install(), Patch(sim, available_cpus=lambda: cpus_seen), init_spy()]
-    obs_list = [Observable(Z(), 0), Observable(X(), 1), Observable(Z(), 1)][:n_obs]
+    # the user's listing order is deliberately NOT the site order, so that sorted_observables != observables and a
+    # stitch by user index (instead of by position in the sorted list the back-ends use) is visible
+    import itertools  # noqa: PLC0415
+
+    base_obs = [Observable(Z(), 1), Observable(X(), 0), Observable(Z(), 0)][:n_obs]
+    perms = list(itertools.permutations(range(len(base_obs))))
+    obs_list = [base_obs[j] for j in perms[(n + w + len(which)) % len(perms)]]
     try:
         if which in ("strong", "strong-layers"):
             from qiskit.circuit import QuantumCircuit  # noqa: PLC0415
